@@ -151,6 +151,13 @@ def replay(c: api.Contract, inputs: dict):
         rw = c.native("raises_when")
         if rw is not None and _call_spec(rw, dict(old.__dict__, old=old)):
             failed.append("returned although raises_when holds")
+        vfn = c.native("value")
+        if vfn is not None:
+            try:
+                if not (result == _call_spec_raw(vfn, dict(args, old=old, result=result))):
+                    failed.append("value")
+            except Exception as e:  # noqa
+                out.setdefault("spec_errors", {})["value"] = repr(e)
         for name in c.ensures_names():
             try:
                 ok = _call_spec(c.native(name), dict(args, old=old, result=result))
@@ -171,6 +178,11 @@ def _exc_matches(e, name):
 def _call_spec(fn, values):
     names = list(inspect.signature(fn).parameters)
     return bool(fn(*[values[n] for n in names]))
+
+
+def _call_spec_raw(fn, values):
+    names = list(inspect.signature(fn).parameters)
+    return fn(*[values[n] for n in names])
 
 
 def _safe_copy(v):
